@@ -11,7 +11,7 @@ def program(rnd, size=1.0):
     narr = rnd.randrange(2, 6)
     L = ["BR start", "DATA %d # sp" % rnd.choice([16383, 100000, 199990, 4000])]
     for i in range(nvars):
-        L += ["v%d" % i, "DATA %d" % rnd.choice([0, 1, 7, 65, 255, 256, 70000, -1, -70000, rnd.randrange(1 << 31)])]
+        L += ["v%d" % i, "DATA %d" % rnd.choice([0, 1, 7, 65, 255, 256, 70000, -1, -70000, rnd.randrange(1 << 31), -2147483648, 2147483647, 1 << 30])]
     L += ["link", "DATA 0", "cnt", "DATA 0", "arr"]
     for i in range(narr):
         L.append("DATA %d" % rnd.randrange(-100, 1000))
@@ -43,9 +43,10 @@ def program(rnd, size=1.0):
         return out
 
     def block(depth):
-        k = rnd.randrange(12)
+        k = rnd.randrange(13)
         if k == 0:
-            return ["LDAC %d" % rnd.choice([0, 1, 15, 16, 255, 4096, 65535, -1, -16, -257, -4097, rnd.randrange(-100000, 100000)]), "STAM %s" % var()]
+            return ["LDAC %d" % rnd.choice([0, 1, 15, 16, 255, 4096, 65535, -1, -16, -257, -4097, rnd.randrange(-100000, 100000),
+                                            -2147483648, 2147483647, 1 << 30, -(1 << 30)]), "STAM %s" % var()]
         if k == 1:
             return ["LDAM %s" % var(), "LDBM %s" % var(), "OPR %s" % rnd.choice(["ADD", "SUB"]), "STAM %s" % var()]
         if k == 2:
@@ -84,6 +85,11 @@ def program(rnd, size=1.0):
             # computed jump through breg
             t = lab()
             return ["LDAP %s" % t, "STAM link", "LDBM link", "OPR BRB", "LDAC 63", "STAM %s" % var(), t]
+        if k == 11 and depth == 0:
+            # word-size loop: double a value until it becomes zero (the tests see every power of two, the sign bit included)
+            top, out, neg, v = lab(), lab(), lab(), var()
+            return ["LDAC %d" % rnd.choice([1, 3, 5]), "STAM %s" % v, top, "LDAM %s" % v, "BRZ %s" % out, "BRN %s" % neg, neg,
+                    "LDAM %s" % v, "LDBM %s" % v, "OPR ADD", "STAM %s" % v, "BR %s" % top, out]
         return ["LDAM %s" % var(), "LDBC %d" % rnd.choice([1, 2, 255, 65536]), "OPR ADD", "STAM %s" % var()]
 
     n = rnd.randrange(3, int(14 * size) + 4)
